@@ -543,3 +543,32 @@ Proof. exists (Str [255]), (Str [239; 191; 189]). split; [vm_compute; reflexivit
 (* a map whose only key is "/" does not come back as a map *)
 Theorem json_reserves_the_slash_key : exists x y, jdec 2 (jenc x) = Some (y, []) /\ y <> canonj x.
 Proof. exists (Map [(slash, Str (cid_text [1; 113]))]), (Link [1; 113]). split; [vm_compute; reflexivity | discriminate]. Qed.
+
+(* a decidable sufficient condition for [jsafe]: ASCII text (any UTF-8 text is safe; ASCII is what can be checked
+   without producing the code points) *)
+Fixpoint jsafeb (x : node) : bool :=
+  match x with
+  | Float _ => false
+  | Str s => forallb (fun c => c <? 128) s
+  | Bytes b => forallb (fun c => c <? 256) b
+  | Link c => forallb (fun c => c <? 256) c
+  | List l => forallb jsafeb l
+  | Map m => forallb (fun e => forallb (fun c => c <? 128) (fst e) && negb (str_eqb (fst e) slash) && jsafeb (snd e)) m
+  | _ => true
+  end.
+
+Lemma forallb_ltb k s : forallb (fun c => c <? k) s = true -> Forall (fun c => c < k) s.
+Proof. intros H. rewrite forallb_forall in H. apply Forall_forall. intros c Hc. apply N.ltb_lt, H, Hc. Qed.
+
+Theorem jsafeb_sound x : jsafeb x = true -> jsafe x.
+Proof.
+  induction x as [| b | z | bits | s | s | l IH | m IH | c] using node_ind'; cbn [jsafeb]; intros H; try exact I; try discriminate.
+  - apply ascii_is_text, forallb_ltb, H.
+  - apply forallb_ltb, H.
+  - cbn [jsafe]. induction IH as [|y l Hy _ IHl]; [exact I|]. cbn [forallb] in H. apply andb_true_iff in H as [H1 H2]. split; [apply Hy, H1 | apply IHl, H2].
+  - cbn [jsafe]. induction IH as [|e m He _ IHm]; [exact I|]. cbn [forallb] in H. apply andb_true_iff in H as [H1 H2].
+    apply andb_true_iff in H1 as [H1 H3]. apply andb_true_iff in H1 as [H1 H4]. split; [|apply IHm, H2].
+    split; [apply ascii_is_text, forallb_ltb, H1|]. split; [|apply He, H3].
+    apply str_eqb_neq, negb_true_iff. exact H4.
+  - apply forallb_ltb, H.
+Qed.
